@@ -126,6 +126,18 @@ def r1b_field_store(text: str) -> Tuple[str, int]:
     return text, n
 
 
+def r1c_compound_index_assign(text: str) -> Tuple[str, int]:
+    """`X[i] OP= E;`  ->  `{ let t__ = X[i] OP (E); X.set(i, t__); }`  for OP in | & (IndexMut + compound assignment on a Vec)"""
+    n = 0
+    def sub(m):
+        nonlocal n
+        n += 1
+        x, i, op, e = m.group(1), m.group(2), m.group(3), m.group(4)
+        return f"{{ let t__ = {x}[{i}] {op} ({e}); {x}.set({i}, t__); }}"
+    text = re.sub(r"\b((?:self\.)?[a-z_][A-Za-z0-9_]*)\[([a-z_][A-Za-z0-9_]*)\] ([|&])= ([^;]+);", sub, text)
+    return text, n
+
+
 # --------------------------------------------------------------------------------------- R2
 def _anf(text: str, toks: List[Tok], cvar: str, ctx: str, counter: List[int], lets: List[str]) -> str:
     """toks: code tokens of one expression.  Returns the atom text that stands for it."""
@@ -550,5 +562,54 @@ def r13_let_chains(text: str) -> Tuple[str, int]:
                 new = f"{{ if {c} {new} }}"
             new = new[2:-2]   # strip the outermost added braces
             return _apply(text, [(t.start, T[e].end, new)]), 1
+        return text, 0
+    return _fix(text, step)
+
+
+# --------------------------------------------------------------------------------------- R15
+def _recv_start(T, i):
+    """index of the first token of the postfix chain that ends right before T[i] (a `.`)"""
+    j = i - 1
+    while j >= 0:
+        t = T[j]
+        if t.kind == "punct" and t.text in ")]":
+            depth = 0
+            k = j
+            while k >= 0:
+                if T[k].kind == "punct" and T[k].text in ")]":
+                    depth += 1
+                elif T[k].kind == "punct" and T[k].text in "([":
+                    depth -= 1
+                    if depth == 0:
+                        break
+                k -= 1
+            j = k - 1
+            if j >= 0 and T[j].kind == "ident" and T[j].text not in ("if", "match", "while", "return", "in"):
+                j -= 1
+            else:
+                break
+        elif t.kind in ("ident", "num"):
+            j -= 1
+        else:
+            break
+        if j >= 0 and T[j].text in (".", "::"):
+            j -= 1
+            continue
+        break
+    return j + 1
+
+
+def r15_const_filter(text: str) -> Tuple[str, int]:
+    """`OPT.filter(|_| FLAG)` with FLAG a plain identifier  ->  `(if FLAG { OPT } else { None })`
+    (Option::filter with a predicate that ignores its argument keeps the value iff the predicate, a pure flag, is true)"""
+    def step(text):
+        T = code_toks(lex(text))
+        for i in range(len(T) - 7):
+            if (T[i].text == "." and T[i + 1].text == "filter" and T[i + 2].text == "(" and T[i + 3].text == "|" and T[i + 4].text == "_"
+                    and T[i + 5].text == "|" and T[i + 6].kind == "ident" and T[i + 7].text == ")"):
+                s = _recv_start(T, i)
+                recv = text[T[s].start:T[i].start]
+                flag = T[i + 6].text
+                return _apply(text, [(T[s].start, T[i + 7].end, f"(if {flag} {{ {recv} }} else {{ None }})")]), 1
         return text, 0
     return _fix(text, step)
